@@ -245,10 +245,18 @@ impl Gatekeeper {
 
     /// Gets a map of outdated users. Outdated users are those whose subscription has expired and the renewal grace period
     /// has already passed ([expiry_delta](Self::expiry_delta)).
+    #[cfg(test)]
     pub(crate) fn get_outdated_users(&self, block_height: u32) -> Vec<UserId> {
-        self.registered_users
-            .lock()
-            .unwrap()
+        self.outdated_users_in(&self.registered_users.lock().unwrap(), block_height)
+    }
+
+    /// Gets the outdated users out of an (already locked) collection of registered users. See [Self::get_outdated_users].
+    fn outdated_users_in(
+        &self,
+        registered_users: &HashMap<UserId, UserInfo>,
+        block_height: u32,
+    ) -> Vec<UserId> {
+        registered_users
             .iter()
             // NOTE: Ideally there won't be a user with `block_height > subscription_expiry + expiry_delta`, but
             // this might happen if we skip a couple of block connections due to a force update.
@@ -310,18 +318,19 @@ impl chain::Listen for Gatekeeper {
         log::info!("New block received: {}", header.block_hash());
 
         // Expired user deletion is delayed. Users are deleted when their subscription is outdated, not expired.
-        let outdated_users = self.get_outdated_users(height);
-        if !outdated_users.is_empty() {
-            // Remove the outdated users from memory first.
-            {
-                let mut registered_users = self.registered_users.lock().unwrap();
+        // The outdated users are picked, removed from memory and deleted from the database within a single critical
+        // section, so a registration (or renewal) is handled either entirely before or entirely after the purge.
+        {
+            let mut registered_users = self.registered_users.lock().unwrap();
+            let outdated_users = self.outdated_users_in(&registered_users, height);
+            if !outdated_users.is_empty() {
                 // Removing each outdated user in a loop is more efficient than retaining non-outdated users
                 // because retaining would loop over all the available users which is always more than the outdated ones.
                 for outdated_user in outdated_users.iter() {
                     registered_users.remove(outdated_user);
                 }
+                self.dbm.lock().unwrap().batch_remove_users(&outdated_users);
             }
-            self.dbm.lock().unwrap().batch_remove_users(&outdated_users);
         }
 
         // Update last known block height
